@@ -33,7 +33,7 @@ def run(R, job):
                     fails.append({"input": " ; ".join(log) + f" ; has_class({c!r})", "observed": t.has_class(c), "expected": c in model})
             else:
                 ret = t
-                st = r.choice(["color:red;", "a:b", "x:y;"])
+                st = r.choice(["color:red;", "a:b", "x:y;", "color: red; ", "a:b;\n", "x:y;\t ", ";", " ;", "a:b ;", "a:b; c", "", " ", "a;b", ";;", "a:b;\r\n", core.HTML("h:1;"), core.HTML("h:1; ")])
                 before = t.attrs.get("style")
                 try:
                     ret = t.add_style(st, prepend=r.random() < 0.5)
@@ -54,7 +54,10 @@ def run(R, job):
         if len(samples) < 3:
             samples.append({"ops": log})
         # css
-        kw = {r.choice(["font_size", "backgroundColor", "color", "margin_top", "zIndex", "a_bC", "WebkitTransition", "borderTLRadius", "margin_Top", "X", "aB2C"]): r.choice(["12px", "red", None, 3, ["a", "b"], ""]) for _ in range(r.choice([0, 1, 2, 3]))}
+        # keyword names, some of which collapse to the same property name (font_size / fontSize / font-size): one declaration per argument all the same
+        kw = {r.choice(["font_size", "backgroundColor", "color", "margin_top", "zIndex", "a_bC", "WebkitTransition", "borderTLRadius", "margin_Top", "X", "aB2C",
+                        "fontSize", "font-size", "marginTop", "margin-top", "z_index", "background_color", "_webkit_transition", "__main_color", "x_", "_", "a__b", "Moz_x_"]): r.choice(["12px", "red", None, 3, ["a", "b"], "", 0, False, [], ["x"]])
+              for _ in range(r.choice([0, 1, 2, 3, 4]))}
         checked += 1
         out = util.css(**kw)
         exp = "".join(re.sub("_", "-", re.sub("([A-Z])", r"-\1", k)).lower() + ":" + (" ".join(v) if isinstance(v, list) else str(v)) + ";" for k, v in kw.items() if v is not None)
